@@ -141,4 +141,15 @@ def step (a : A) : Op → A × Ans
   | .clear => (clear a, .unit)
   | .intervalCount => (a, .nat (intervalCount a))
 
+/-- the answer a plain set of free integers gives when that set is read off a pool: reserve
+    succeeds exactly for free values, a value is used exactly when it is in range and not free,
+    allocate hands out the smallest free value (the head of a sorted pool).  Evaluated by the
+    driver on the implementation's own interval list (`C20 answer_vs_pool`), on ranges of any size;
+    `Props/C20.C20_pool_answer_is_spec` ties it to the set specification. -/
+def poolAnswer (a : A) : Op → Option Ans
+  | .useValue v => some (.bool (decide (Free a.pool v)))
+  | .isUsed v => some (.bool (decide (a.lowest ≤ v ∧ v ≤ a.highest) && !decide (Free a.pool v)))
+  | .allocate => some (.optVal (a.pool.head?.map (·.lo)))
+  | _ => none
+
 end MqttVerif.Alloc
